@@ -27,6 +27,7 @@ package ringbuffer
 //@   requires poolwf(p)
 //@   ensures ring.wf(res) && ring.cnt(res) == 0
 //@   assumes fresh(res)
+//@   assumes res.buf == nil || fresh(res.buf)
 //
 //@ func (p *Pool) Put(b *RingBuffer)
 //@   requires poolwf(p) && ring.wf(b)
@@ -35,6 +36,7 @@ package ringbuffer
 //@ func Get() *RingBuffer
 //@   ensures ring.wf(res) && ring.cnt(res) == 0
 //@   assumes fresh(res)
+//@   assumes res.buf == nil || fresh(res.buf)
 //
 //@ func Put(b *RingBuffer)
 //@   requires ring.wf(b)
